@@ -79,6 +79,12 @@ def gen_seeds():
         summ = re.split(r"(?<=[.;])\s", (m.get("summary") or "").strip())[0][:260].replace("|", "\\|")
         need = (m.get("needs_to_manifest") or "").strip()[:200].replace("|", "\\|")
         out.append(f"| {d} | {m.get('property')} | {summ} | {need} | {r.get('first', '?')} | {r.get('now', '?')} |")
+    out.append("")
+    out.append("Strengthenings made after a miss (each a new or tightened rule, see the rule texts in §5):")
+    out.append("")
+    for d in sorted(seedres):
+        if d != "_comment" and seedres[d].get("strengthened"):
+            out.append(f"* **{d}** — {seedres[d]['strengthened']}.")
     return "\n".join(out)
 
 
